@@ -1,4 +1,5 @@
-(* C15 driver: (case ID (pool (SYMHEX PREC)...) (pool0 (SYMHEX PREC)...) (toks TOK...)) ->
+(* C15 driver: (case ID (pool (SYMHEX PREC)...) (pool0 (SYMHEX PREC)...) (text HEX)) - the expression TEXT, the bytes
+   ledger gets; the model tokenizes it itself (Model/ExprLex.v) - or, for a hand-made token list, (toks TOK...) ->
      "ID P <printed text of the parsed tree | E:Parse | NULL>"
      "ID V <value of parse+compile+calc>"
      "ID R <value of parse+compile+calc of the printed text lexed again (under pool0)>"
@@ -92,6 +93,26 @@ let handle line =
     let cp = mk_cp pool and cp0 = mk_cp pool0 in
     let ts = List.map tok_of toks in
     (match parse cp (parse_fuel ts) ts with
+     | Err e -> [id ^ " P E:Parse"; id ^ " V E:Parse"; id ^ " R -"]
+     | Ok None -> [id ^ " P NULL"; id ^ " V " ^ show_run cp ts; id ^ " R -"]
+     | Ok (Some t) ->
+       let pt = print t in
+       let rt = List.map (relit_tok cp) pt in
+       [id ^ " P " ^ hex_of_string (render cp pt);
+        id ^ " V " ^ show_run cp ts;
+        id ^ " R " ^ show_run cp0 rt])
+  | L [A "case"; A id; L (A "pool" :: pool); L (A "pool0" :: pool0); L [A mode; A hex]] when mode = "text" || mode = "ptext" ->
+    (* ptext: the value is that of `(TEXT)` - ledger evaluates verif_rational(TEXT), where what follows a complete
+       expression is not dropped but meets the closing parenthesis *)
+    let cp = mk_cp pool and cp0 = mk_cp pool0 in
+    let s = str_of_hex hex in
+    let ts = text_tokens s in
+    let show_run cp ts0 =
+      if mode = "ptext" && ts0 == ts then
+        (let s' = str_of_string ("(" ^ string_of_str s ^ ")") in
+         match parse_text cp s' with Err _ -> "E:Parse" | Ok _ -> show_run cp (text_tokens s'))
+      else show_run cp ts0 in
+    (match parse_text cp s with
      | Err e -> [id ^ " P E:Parse"; id ^ " V E:Parse"; id ^ " R -"]
      | Ok None -> [id ^ " P NULL"; id ^ " V " ^ show_run cp ts; id ^ " R -"]
      | Ok (Some t) ->
